@@ -1206,7 +1206,7 @@ pub fn run_specs(specs: Vec<ProgSpec>, report: &mut Report, threads: usize, know
     }
     for h in handles {
         if h.join().is_err() {
-            report.inconclusive.push("a program thread panicked in the harness".into());
+            report.inconclusive.push("HARNESS-PANIC: a model program thread panicked (its results are lost)".into());
         }
     }
     let m = std::sync::Arc::try_unwrap(merged).ok().unwrap().into_inner();
